@@ -6,6 +6,7 @@ props = [json.loads(l) for l in open(os.path.join(ROOT, 'properties.jsonl'))]
 ids = [p['id'] for p in props]
 
 # id -> (category, technique, text, note, design_ref, engine, has_thorough)
+CR = 'Writer child process per plan over the real infs/fs backend on tmpfs (5 transaction shapes in quick, 12 in thorough: update in place, add to leaf, split, remove emptying a leaf, remove of inner-node items, mixed, two stores, first item of an empty store, new store inside the transaction, separate-segment / actively persisted / globally cached values); the reference run records every file operation of the commit twice (traces must match); '
 CHECKS = {
  'C17': ('model_checking', 'explicit-state BFS over the real btree.Btree vs sorted-multiset model',
          'Every reachable tree state of the real B-tree (small key domain, slot lengths 2-8, unique/duplicate, load balancing on/off) is enumerated breadth-first with state de-duplication; each transition runs on the implementation and is compared with an ordered multiset/map model (result, contents, Count, forward/backward scans, structural invariants, rejected order-changing key updates). Several configurations are closed to a fixpoint (all reachable states within the key domain), the others to a stated depth.',
@@ -94,6 +95,24 @@ CHECKS = {
  'C37': ('exploration', 'stateless model checking of 2-3 committers with a monitor on every registry block write (install events per node version)',
          'All committer scenarios of C02 and C04 (same node, sibling nodes, two stores, splits, first root, three writers) under every schedule within the deviation bound, with a monitor that decodes every registry block image before it is written: per logical id and version the set of installed successors (active blob ids) must have one element, a version never regresses, and at the moment an existing node is re-pointed its new active blob must exist and parse. (Crash points: every crash plan of C08/C10 checks with fsck that each reachable node points at a blob that loads; recovery to pre-commit handles is C09, a known finding.)',
          'Layer (a) of the plan only: no separate TLA+ model was built; brand-new registry entries are judged when they become reachable.', '6/C37', 'SCHED', True),
+ 'C01': ('fault_enumeration', 'exhaustive single-fault positions (every file operation, every L2 call) of a commit; all-or-nothing oracle in the same process and in a fresh process',
+         CR+'for EVERY file operation index an EIO (once) and, for mutating operations, a persistent ENOSPC on that path, and for EVERY L2 cache call index a failure, are injected during the transaction under test; then the same program is retried fault-free. If Commit returned nil every change must be visible (same process and fresh cold process); if it returned an error none may be; after a failed attempt plus successful retry the cold view must be exactly the model-after for ALL stores.',
+         'Single faults only; standalone mode (in-memory L2); a completed write is durable.', '6/C01', 'FAULTX', True),
+ 'C07': ('fault_enumeration', 'exhaustive single-fault positions of a commit + fault-free retry in the same process',
+         CR+'same fault plans as C01; after a failed Commit a fresh transaction in the SAME process (leftover locks would matter, no clock advance) must read the model-before, and the same program run again without faults must commit and yield the model-after.',
+         'Single faults (one-shot EIO, sticky ENOSPC on one path, one L2 call); signatures carry the fault site (operation:file class or L2 method:key class).', '6/C07', 'FAULTX', True),
+ 'C08': ('fault_enumeration', 'exhaustive crash points and torn writes of a commit; fresh-process recovery with ages advanced',
+         CR+'the writer is killed on entry to the k-th mutating file operation for EVERY k (and after the last), and after torn prefixes of every file write, registry block write and log append; a fresh verifier process with the clock advanced 130 minutes then reads every store, commits a writer on the same keys and reads again: each store must be readable, all stores must show the model-before or all the model-after, Count must equal the items, and the follow-up writer must commit.',
+         'Crash = process death before a file operation of the instrumented backend call sites (FileIO, DirectIO, transaction log, segment truncate); tmpfs, no page-cache loss after a completed write.', '6/C08', 'FAULTX', True),
+ 'C09': ('fault_enumeration', 'exhaustive crash points of a commit; recovery by later ordinary transactions after the documented ages',
+         CR+'same crash and torn plans as C08; the verifier process runs with the clock advanced 130 minutes (past the 5-minute and 1-hour ages) and performs six ordinary transactions through the public path; afterwards fsck (independent parser) must find no transaction/priority log of the dead transaction, no blob that nothing references beyond the fault-free baseline, no handle with a deleted mark or work-in-progress timestamp, and a writer on the same keys must commit.',
+         'Standalone mode only (no Redis lock resurrection path).', '6/C09', 'FAULTX', True),
+ 'C10': ('fault_enumeration', 'exhaustive crash, torn-write and fault plans of a commit; independent reachability walk of the disk',
+         CR+'every crash, torn and fault plan of C08/C07 (incl. the fault-free retry); afterwards fsck walks every store from its root through the registry: every reachable node blob and every out-of-node item value must exist and parse, and a cold reader must not fail on a missing node or value.',
+         'A damaged or missing store record (storeinfo.txt) is judged by C08/C12, not here.', '6/C10', 'FAULTX', True),
+ 'C11': ('fault_enumeration', 'exhaustive fault positions of a commit + retry (crash-free histories); orphan scan by an independent parser',
+         CR+'the fault plans of C07 (failed attempt, rollback, fault-free retry, later writer) and the fault-free run itself; afterwards fsck must find no blob file and no registry entry that is unreachable from every root and no transaction or priority log; orphans that the fault-free run of the same shape already leaves are reported once (mode none) and not attributed to each fault plan.',
+         'Crash-free histories only (crashes are C09).', '6/C11', 'FAULTX', True),
 }
 NA_REASON = 'check not built yet in this session; no claim is made (see DESIGN.md section 6 for the plan)'
 
